@@ -20,6 +20,7 @@ import (
 
 	"k8s.io/apimachinery/pkg/apis/meta/v1/unstructured"
 
+	"k8s.io/apimachinery/pkg/runtime"
 	"k8s.io/apimachinery/pkg/runtime/schema"
 
 	"github.com/crossplane/crossplane/verifh/kit"
@@ -111,6 +112,19 @@ func (x *execution) applyStep(i int) {
 					panic(fmt.Sprintf("revision controller release: %v", err))
 				}
 			}
+		}
+	}
+	if s.Recreate {
+		if cur := x.w.GetObj(x.kind.pkgKey()); cur != nil {
+			if err := u.Delete(nil, &unstructured.Unstructured{Object: cur}); err != nil { //nolint:staticcheck // ctx unused
+				panic(fmt.Sprintf("user delete of the package: %v", err))
+			}
+			again := map[string]any{"apiVersion": cur["apiVersion"], "kind": cur["kind"], "metadata": map[string]any{"name": pkgName}, "spec": runtime.DeepCopyJSONValue(cur["spec"])}
+			if err := u.Create(nil, &unstructured.Unstructured{Object: again}); err != nil { //nolint:staticcheck // ctx unused
+				panic(fmt.Sprintf("user re-creates the package: %v", err))
+			}
+		} else {
+			x.skippedOps++
 		}
 	}
 	if s.Source != "" || s.Limit != nil || s.Activation != "" || s.Pull != "" {
@@ -493,6 +507,7 @@ func main() {
 	c.Rule += " Histories with finalizers: the revision controller holds its finalizer on every revision; the user deletes the current / oldest revision (it lingers Terminating) and the finalizer is released by a later step."
 	c.Rule += " " + "A history with revisionHistoryLimit = max int64."
 	c.Rule += " " + "Digest stability: the real PackageRevisioner over the real registry fetcher against an in-process registry (plain image, OCI index, Docker manifest list under an unmoved tag) whose manifest HEAD answers ok / 429 / 404 / 500 / 405 / without digest header: every successful resolution names the revision of the tag's digest."
+	c.Rule += " " + "History package-recreated: the package deleted and re-created under its name while its old incarnation's Active revision lingers."
 	c.Rule += " " + "Base histories: the first reconcile of a step fails at each call (500, applied-but-504, 409) and the next edit lands before any retry."
 	c.Rule += " " + "Stale revision lists: the first reconcile after each edit of a base history lists revisions as of one or two edits earlier (Gets current); judged: two Active revisions through a write to an existing revision."
 	c.Assumptions = []string{
